@@ -83,8 +83,15 @@ func wrapGraphNodeError(nodeKey string, err error) error {
 			origError:         err,
 		}
 	}
-	ie.nodePath.path = append([]string{nodeKey}, ie.nodePath.path...)
-	return ie
+	// err is the wrapper itself. It is never extended in place: the same error value can reach
+	// several nodes (an error item of a stream copied for parallel successors), and every one of
+	// them must report its own path.
+	return &internalError{
+		typ:               ie.typ,
+		streamWrapperPath: append([]defaultImplAction{}, ie.streamWrapperPath...),
+		nodePath:          NodePath{path: append([]string{nodeKey}, ie.nodePath.path...)},
+		origError:         ie.origError,
+	}
 }
 
 func newStreamWrapperError(streamWrapperType defaultImplAction, err error) error {
@@ -116,8 +123,13 @@ func wrapStreamWrapperError(streamWrapperType defaultImplAction, err error) erro
 			origError:         err,
 		}
 	}
-	ie.streamWrapperPath = append([]defaultImplAction{streamWrapperType}, ie.streamWrapperPath...)
-	return ie
+	// err is the wrapper itself: not extended in place, see wrapGraphNodeError
+	return &internalError{
+		typ:               ie.typ,
+		streamWrapperPath: append([]defaultImplAction{streamWrapperType}, ie.streamWrapperPath...),
+		nodePath:          NodePath{path: append([]string{}, ie.nodePath.path...)},
+		origError:         ie.origError,
+	}
 }
 
 type internalErrorType string
